@@ -1,7 +1,7 @@
 CONSTANTS
-  MaxLen = 5
-  MaxWs = 5
-  MaxBody = 5
+  MaxLen = 7
+  MaxWs = 2
+  MaxBody = 4
   MinEmit = 0
 SPECIFICATION Spec
 INVARIANT TypeOK
